@@ -1,6 +1,6 @@
 // C11 executor: JSON Schema verdicts of jsoncons for (dialect, schema, instances) lines.
 //
-// stdin, one case per line:   <dialect>[:q] <hex schema json> <hex json array of instances>
+// stdin, one case per line:   <dialect>[:q | :h<N>] <hex schema json> <hex json array of instances>
 //   dialect in {4,6,7,2019,2020} selects evaluation_options::default_version (a "$schema" member in the
 //   schema text, if the driver put one there, is honoured by jsoncons itself).
 //   ":q" = verdict only (is_valid); used for the member-order variants.
